@@ -171,3 +171,57 @@ Proof.
 Qed.
 
 End SchemesProofs.
+
+(* ---- ISN ------------------------------------------------------------------------------------------------ *)
+Section IsnProofs.
+Context {F : Type} (K : fops F) (HK : flaws K).
+
+Add Field Kfield8 : (fl_theory K HK).
+
+Notation "0" := (f0 K).
+Infix "+" := (fadd K).
+Infix "-" := (fsub K).
+
+(* an unqualified ID list is refused *)
+Theorem isn_exact : forall p mus (shares : list (isn_share (F:=F))),
+  is_qualified p (map fst shares) = false -> isn_reconstruct K p mus shares = None.
+Proof. intros p mus shares H. unfold isn_reconstruct. now rewrite H. Qed.
+
+Lemma combine_seq_upd : forall (l : list F) k x s,
+  combine (seq s (length (upd k x l))) (upd k x l) =
+  map (fun kv => if Nat.eqb (fst kv) (s + k) then (fst kv, x) else kv) (combine (seq s (length l)) l)
+  \/ (length l <= k)%nat.
+Proof.
+  induction l as [|a l IH]; intros k x s; [right; cbn; lia|].
+  destruct k as [|k].
+  - left. cbn [upd length seq combine map fst]. rewrite Nat.add_0_r, Nat.eqb_refl. f_equal.
+    rewrite <- (map_id (combine (seq (S s) (length l)) l)) at 1. apply map_ext_in.
+    intros [i v] Hin. apply in_combine_l in Hin. apply in_seq in Hin. cbn [fst].
+    destruct (Nat.eqb i s) eqn:E; [apply Nat.eqb_eq in E; lia|reflexivity].
+  - destruct (IH k x (S s)) as [E|E]; [left|right; cbn; lia].
+    cbn [upd length seq combine map fst]. rewrite E.
+    destruct (Nat.eqb s (s + S k)) eqn:E2; [apply Nat.eqb_eq in E2; lia|]. f_equal.
+    apply map_ext. intros [i v]. cbn [fst]. now replace (S s + k)%nat with (s + S k)%nat by lia.
+Qed.
+
+(* privacy: holders that all lie in the k-th maximal unqualified set never see summand k, so it can be
+   moved to reach any other secret without changing their shares *)
+Theorem isn_privacy : forall mus (summands : list F) ids k d,
+  length summands = length mus -> (k < length summands)%nat ->
+  (forall id, In id ids -> In id (nth k mus [])) ->
+  isn_deal mus (upd k (nth k summands 0 + d) summands) ids = isn_deal mus summands ids /\
+  fsum K (upd k (nth k summands 0 + d) summands) = fsum K summands + d.
+Proof.
+  intros mus summands ids k d Hlen Hk Hin. split.
+  - unfold isn_deal. apply map_ext_in. intros id Hid. f_equal. rewrite <- Hlen.
+    destruct (combine_seq_upd summands k (nth k summands 0 + d) 0) as [E|E]; [|lia].
+    rewrite upd_length in E. rewrite E. cbn [plus]. clear E.
+    induction (combine (seq 0 (length summands)) summands) as [|[i v] l IH]; [reflexivity|].
+    cbn [map filter fst snd]. destruct (Nat.eqb i k) eqn:Ei.
+    + apply Nat.eqb_eq in Ei. subst i. cbn [fst].
+      assert (Hm : memN id (nth k mus []) = true) by (apply memN_In; auto). rewrite Hm. cbn [negb]. exact IH.
+    + cbn [fst]. destruct (negb (memN id (nth i mus []))); [f_equal|]; exact IH.
+  - rewrite (upd_fsum K HK) by auto. ring.
+Qed.
+
+End IsnProofs.
